@@ -577,7 +577,7 @@ def strategies():
         from .. import world as W
         W.install()
         ev = start_event(W)
-        how = draw(st.sampled_from(["arbitrary", "arbitrary", "not-json", "not-utf8", "drop", "drop", "replace", "replace", "unknown-machine", "unknown-state", "mid-state", "map-reentry-marker"]))
+        how = draw(st.sampled_from(["arbitrary", "arbitrary", "not-json", "not-utf8", "drop", "drop", "replace", "replace", "unknown-machine", "unknown-state", "mid-state", "map-reentry-marker", "parallel-bad-start-time"]))
         if how == "arbitrary":
             ev = draw(any_json)
         elif how == "not-json":
@@ -614,6 +614,14 @@ def strategies():
             ev["data"] = {"items": [1, 2, 3]}
             ev["context"]["State"]["Name"] = "M"
             ev["context"]["State"]["Branch"] = [{"Parent": "M", "ID": "x", "Range": draw(st.sampled_from(["a:b", "1", "", ":", "1:x", 5, None, [1, 2], "-1:2", "1:99"]))}]
+        elif how == "parallel-bad-start-time":
+            # a start event whose Execution.StartTime the engine cannot read, for a machine with a Parallel state (the definition travels in the event)
+            ev["context"]["StateMachine"]["Definition"] = {"StartAt": "Par", "States": {"Par": {"Type": "Parallel", "End": True, "Branches": [
+                {"StartAt": "A", "States": {"A": {"Type": "Pass", "End": True}}}, {"StartAt": "B", "States": {"B": {"Type": "Pass", "End": True}}}]}}}
+            ev["context"]["StateMachine"]["Id"] = W.sm_arn("byvalue2")
+            ev["context"]["StateMachine"]["Name"] = "byvalue2"
+            ev["context"]["Execution"]["Id"] = "arn:aws:states:local:0123456789:execution:byvalue2:raw1"
+            ev["context"]["Execution"]["StartTime"] = draw(st.sampled_from(["2024-01-01T00:00:00", "not a time", "2024-01-01", 5, None, "2024-13-01T00:00:00Z"]))
         elif how == "mid-state":
             ev["context"]["State"]["Name"] = draw(st.sampled_from(["B", "C"]))
             ev["context"]["State"]["Branch"] = draw(st.sampled_from([[], [{"ID": "x"}], "str", [{"Index": 0, "Parent": "A", "ID": "y", "Input": {}}], None]))
